@@ -39,7 +39,7 @@ CHECKS = {
     "C11": ("fault_enumeration",
             "crash-point enumeration: child processes killed with SIGKILL at traced hook points of proptest-generated histories, acknowledgement file vs. directory contents, restart in a second child",
             "For every generated history the hits of all hook points (before/after each file-system effect of write, rotation, symlink replacement, cleanup, compression) are traced; a fresh child is killed at each (point, occurrence) pair (all pairs for small histories, otherwise a subset incl. first/last occurrence of every point); acknowledged records must be in the files, nothing torn/duplicated/reordered; a second child restarts on the directory and must exit 0 with an empty error channel, preserve what the limits permit and keep the limits. Enumeration per history, histories sampled.",
-            "kills at hook points (SIGKILL on self), not inside system calls; for background cleanup the position of the kill relative to the logging thread is schedule dependent; KF-C07-1 tolerated by exact signature",
+            "kills at hook points (SIGKILL on self), not inside system calls; for background cleanup the position of the kill relative to the logging thread is schedule dependent",
             "DESIGN.md 4/C11"),
     "C12": ("exploration",
             "systematic enumeration of thread interleavings at hook points (controlled scheduler) over proptest-generated spec sets",
@@ -49,7 +49,7 @@ CHECKS = {
     "C16": ("exploration",
             "model-based histories with a listing oracle from the reference name grammar (proptest), path round trip for FileSpec::try_from executed with a per-case cwd",
             "After logger start and after every operation of generated multi-run histories, existing_log_files(selector) is compared (as a set of existing paths) with the directory snapshot filtered by the reference family predicate and the selector; every directory entry must parse with exactly the configured name parts, the [starttime] part must equal the virtual start time, the symlink must point to the current file; generated paths go through FileSpec::try_from -> as_pathbuf and a real logger that must write into exactly that file. Search, not proof.",
-            "trusts the reference name grammar; files of earlier starts with another [starttime] count as other families; KF-C07-1 tolerated by exact signature",
+            "trusts the reference name grammar; files of earlier starts with another [starttime] count as other families",
             "DESIGN.md 4/C16"),
     "C17": ("exploration",
             "round-trip and differential testing against a reference parser (proptest grammar + mutation + arbitrary Unicode)",
@@ -74,17 +74,17 @@ CHECKS = {
     "C06": ("exploration",
             "model-based multi-run histories (proptest) with stream-continuation and immutability invariants over directory snapshots",
             "Generated sequences of 2-5 runs (append on/off, writes, rotations, clock gaps from 0 ms to 40 days) with all namings and cleanup strategies and directory manipulations between runs (all rotated files gzipped, current missing, gaps); after every run the gunzipped family stream must be the previous stream plus the run's lines (a suffix of it with cleanup; documented truncation modelled) and every closed file of the previous snapshot must be unchanged or legitimately cleaned up. Search, not proof; found and led to the repair of six restart defects.",
-            "trusts the name grammar / semantic order and the directory-snapshot comparison; [starttime] part excluded; KF-C07-1 tolerated by exact signature",
+            "trusts the name grammar / semantic order and the directory-snapshot comparison; [starttime] part excluded",
             "DESIGN.md 4/C06"),
     "C07": ("exploration",
             "model-based histories (proptest) with cleanup invariants checked after every operation; randomized schedules (hook-point noise) for background executors",
             "Generated histories x cleanup limits k,m in {0,1,2,3,5} x namings x suffixes x executors; upper bounds, contiguous-tail stream oracle (implies lossless compression and no plain twin), current file plain and present, and lower bounds from the reference partition model's count of produced files. Synchronous cleanup is checked after every operation; background/async cleanup after shutdown under seed-chosen scheduling noise (sampling, not enumeration).",
-            "trusts the partition model for the number of produced files; schedules of the background cleanup are sampled by the OS + noise only; KF-C07-1 tolerated by exact signature",
+            "trusts the partition model for the number of produced files; schedules of the background cleanup are sampled by the OS + noise only",
             "DESIGN.md 4/C07"),
     "C14": ("exploration",
             "differential twin runs (with vs without foreign entries) over proptest-generated near-miss names, metadata comparison of the foreign entries",
             "The same generated multi-run history is executed in a directory pre-populated with near-miss foreign entries (classified by the reference family predicate) and in an empty directory under the same virtual clock; foreign entries must keep name/inode/size/mtime/bytes, and family files, existing_log_files answers and error counts must be identical between the twins. Search, not proof.",
-            "the reference family predicate (src/observe.rs) defines 'foreign'; sub-directories may also carry real family names that no history produces; KF-C07-1 tolerated by exact signature",
+            "the reference family predicate (src/observe.rs) defines 'foreign'; sub-directories may also carry real family names that no history produces",
             "DESIGN.md 4/C14"),
     "C08": ("exploration",
             "proptest histories + reference partition model (model-based testing)",
@@ -104,7 +104,7 @@ CHECKS = {
     "C15": ("exploration",
             "differential testing across write modes (proptest) + enumerated single-byte chunks",
             "The same generated record or raw-chunk sequence is run under Direct, buffered and async modes; ordered file contents must agree with the Direct run and with the partition model, chunk concatenation must equal the input; all 256 single-byte chunk values are enumerated. Search, not proof.",
-            "trusts the Direct mode only as the differential reference (also compared with the model); known finding KF-C15-1 is tolerated by exact signature only",
+            "trusts the Direct mode only as the differential reference (also compared with the model)",
             "DESIGN.md 4/C15"),
 }
 
